@@ -40,8 +40,20 @@ def get_binding_disallow_class_namespace_rename(name, namespace):
     if isinstance(namespace, ast.ClassDef):
         # This name will become an attribute of a class, so it can't be renamed
         binding.disallow_rename()
+        disallow_global_rename(name, namespace)
 
     return binding
+
+
+def disallow_global_rename(name, namespace):
+    """
+    Prevent the module level binding of a name from being renamed
+
+    A name that is both read and bound in a class body is local to the class. Reading it before it is bound
+    falls back to the module globals (and builtins), not to an enclosing function, so the global must keep its name.
+    """
+
+    get_binding(name, get_global_namespace(namespace)).disallow_rename()
 
 
 def resolve_names(node):
@@ -61,6 +73,7 @@ def resolve_names(node):
 
         if isinstance(node.ctx, ast.Store) and isinstance(node.namespace, ast.ClassDef):
             binding.disallow_rename()
+            disallow_global_rename(node.id, node.namespace)
 
     elif isinstance(node, ast.ClassDef) and node.name in node.namespace.nonlocal_names:
         binding = get_binding_disallow_class_namespace_rename(node.name, node.namespace)
